@@ -97,6 +97,8 @@ type execCase struct {
 	ArgvHex []string `json:"argv_hex"`
 	// PostHelp: after Run returned, the application's help is requested through PrintHelp; its usage line is reported
 	PostHelp bool `json:"posthelp"`
+	// PreSpec: the spec string in force during the earlier runs (Prerun); the observed run uses Spec
+	PreSpec *string `json:"prespec"`
 }
 
 type execResult struct {
@@ -280,6 +282,9 @@ func runExec(p program, c execCase) (r execResult) {
 			}
 		}
 	}
+	if c.PreSpec != nil && len(c.Prerun) > 0 {
+		app.Spec = *c.PreSpec
+	}
 	for _, pre := range c.Prerun {
 		func() {
 			defer func() { recover() }()
@@ -293,6 +298,12 @@ func runExec(p program, c execCase) (r execResult) {
 			*b = false
 		}
 		errBuf.Reset()
+	}
+	if c.PreSpec != nil && len(c.Prerun) > 0 {
+		app.Spec = ""
+		if c.Spec != nil {
+			app.Spec = *c.Spec
+		}
 	}
 	argv := c.Argv
 	if len(c.ArgvHex) > 0 {
